@@ -934,6 +934,12 @@ func closureTargets(v ssa.Value, depth int, seen map[ssa.Value]bool) []*ssa.Func
 					}
 				})
 			}
+			// fn is itself called through a function value (a member of a table of handlers)
+			for _, c := range indirectSitesOf(fn) {
+				if i < len(c.Common().Args) {
+					add(closureTargets(c.Common().Args[i], depth+1, seen))
+				}
+			}
 		}
 	case *ssa.UnOp:
 		if x.Op != token.MUL {
@@ -1100,6 +1106,20 @@ func closureTarget(v ssa.Value, depth int) *ssa.Function {
 			})
 			if bad {
 				return nil
+			}
+		}
+		if sites == 0 {
+			// fn is itself called through a function value (a member of a table of handlers)
+			for _, c := range indirectSitesOf(fn) {
+				if idx < 0 || idx >= len(c.Common().Args) {
+					return nil
+				}
+				sites++
+				t := closureTarget(c.Common().Args[idx], depth+1)
+				if t == nil || (tgt != nil && tgt != t) {
+					return nil
+				}
+				tgt = t
 			}
 		}
 		if sites == 0 {
@@ -2627,5 +2647,44 @@ func tableMissBlocks(fn *ssa.Function) map[*ssa.BasicBlock]bool {
 			}
 		}
 	}
+	return out
+}
+
+var indirectSitesMemo = map[*ssa.Function][]ssa.CallInstruction{}
+var indirectSitesBusy = map[*ssa.Function]bool{}
+
+// indirectSitesOf: the calls through a function value (not a static call, not an interface method) that can reach fn: the value
+// called is one whose possible targets include fn. Only anonymous functions and method values are looked for - a named function
+// that is only ever called statically has none.
+func indirectSitesOf(fn *ssa.Function) []ssa.CallInstruction {
+	if out, ok := indirectSitesMemo[fn]; ok {
+		return out
+	}
+	if theWorld == nil || indirectSitesBusy[fn] {
+		return nil
+	}
+	indirectSitesBusy[fn] = true
+	defer delete(indirectSitesBusy, fn)
+	var out []ssa.CallInstruction
+	for _, g := range theWorld.allFuncsInRepo() {
+		forEachInstr(g, func(_ *ssa.BasicBlock, ins ssa.Instruction) {
+			c, ok := ins.(ssa.CallInstruction)
+			if !ok || c.Common().IsInvoke() || c.Common().StaticCallee() != nil {
+				return
+			}
+			if _, isB := c.Common().Value.(*ssa.Builtin); isB {
+				return
+			}
+			if !types.Identical(c.Common().Value.Type().Underlying(), fn.Signature) {
+				return
+			}
+			for _, t := range closureTargets(c.Common().Value, 0, map[ssa.Value]bool{}) {
+				if t == fn {
+					out = append(out, c)
+				}
+			}
+		})
+	}
+	indirectSitesMemo[fn] = out
 	return out
 }
